@@ -1,4 +1,4 @@
-package props
+package c49
 
 import (
 	"encoding/json"
